@@ -285,6 +285,8 @@ fn closed_value_async_sender() {
   kani::cover!(true, "END");
 }
 
+/// (MEASURED: no result within the 1 h harness timeout at ~8 GB: tier=probe; the repair is covered by the core-level
+/// step contracts mpmc.core.forward_* and the native demonstration findings/mpmc_wake_forward_demo.rs.)
 /// C06 "dropping a pending future ... does not swallow a wakeup that another waiting task needs":
 /// two receive futures A (waker 0) and B (waker 1) are pending on an empty channel; one send wakes A; A is dropped
 /// before it is polled again.  The value is still buffered and B is still parked: B must be woken, and then gets it.
@@ -500,7 +502,7 @@ fn ob_c04_mpmc_closed_value_sender() { closed_value_sender(); }
 #[kani::unwind(6)]
 fn ob_c04_mpmc_closed_value_async_sender() { closed_value_async_sender(); }
 
-// @obligation id=c06.mpmc.cancel_forward.recv props=C06 kind=hist tier=thorough bound="bounded_async(1), two pending RecvFutures, one try_send, the woken future dropped before re-poll"
+// @obligation id=c06.mpmc.cancel_forward.recv props=C06 kind=hist tier=probe bound="bounded_async(1), two pending RecvFutures, one try_send, the woken future dropped before re-poll"
 #[kani::proof]
 #[kani::stub(std::thread::current::current, crate::verif_k_stubs::stub_thread_current)]
 #[kani::stub(parking_lot::RawMutex::lock_slow, crate::verif_k_stubs::stub_lock_slow)]
